@@ -476,58 +476,33 @@ Require Verif.Tie.Loops.Hex.
 Require Verif.Tie.Loops.Npm.
 Require Verif.Tie.Loops.Nuget.
 Require Verif.Tie.Loops.Semver.
-Definition C08_tie_cargo_compareInt := Verif.Tie.Cargo.tie_cargo_compareInt.
-Print Assumptions C08_tie_cargo_compareInt.
-Definition C08_tie_cargo_compare := Verif.Tie.Cargo.tie_cargo_compare.
-Print Assumptions C08_tie_cargo_compare.
-Definition C08_tie_golang_compareInt := Verif.Tie.Golang.tie_golang_compareInt.
-Print Assumptions C08_tie_golang_compareInt.
-Definition C08_tie_golang_Version_Compare := Verif.Tie.Golang.tie_golang_Version_Compare.
-Print Assumptions C08_tie_golang_Version_Compare.
-Definition C08_tie_hex_compareInt := Verif.Tie.Hex.tie_hex_compareInt.
-Print Assumptions C08_tie_hex_compareInt.
-Definition C08_tie_hex_compare := Verif.Tie.Hex.tie_hex_compare.
-Print Assumptions C08_tie_hex_compare.
-Definition C08_tie_npm_compareInt := Verif.Tie.Npm.tie_npm_compareInt.
-Print Assumptions C08_tie_npm_compareInt.
-Definition C08_tie_npm_compare := Verif.Tie.Npm.tie_npm_compare.
-Print Assumptions C08_tie_npm_compare.
-Definition C08_tie_nuget_compareInt := Verif.Tie.Nuget.tie_nuget_compareInt.
-Print Assumptions C08_tie_nuget_compareInt.
-Definition C08_tie_nuget_compare := Verif.Tie.Nuget.tie_nuget_compare.
-Print Assumptions C08_tie_nuget_compare.
-Definition C08_tie_semver_compareInt := Verif.Tie.Semver.tie_semver_compareInt.
-Print Assumptions C08_tie_semver_compareInt.
-Definition C08_tie_semver_compare := Verif.Tie.Semver.tie_semver_compare.
-Print Assumptions C08_tie_semver_compare.
-Definition C08_tie_loops_cargo_comparePrereleaseIdentifiers := Verif.Tie.Loops.Cargo.tie_loops_cargo_comparePrereleaseIdentifiers.
-Print Assumptions C08_tie_loops_cargo_comparePrereleaseIdentifiers.
-Definition C08_tie_comparePrereleaseIdentifiers_total_model := Verif.Tie.Loops.Cargo.comparePrereleaseIdentifiers_total_model.
-Print Assumptions C08_tie_comparePrereleaseIdentifiers_total_model.
-Definition C08_tie_cargo_compare_closed := Verif.Tie.Loops.Cargo.tie_cargo_compare_closed.
-Print Assumptions C08_tie_cargo_compare_closed.
-Definition C08_tie_loops_golang_comparePrerelease := Verif.Tie.Loops.Golang.tie_loops_golang_comparePrerelease.
-Print Assumptions C08_tie_loops_golang_comparePrerelease.
-Definition C08_tie_comparePrerelease_total_model := Verif.Tie.Loops.Golang.comparePrerelease_total_model.
-Print Assumptions C08_tie_comparePrerelease_total_model.
-Definition C08_tie_golang_compare_closed := Verif.Tie.Loops.Golang.tie_golang_compare_closed.
-Print Assumptions C08_tie_golang_compare_closed.
-Definition C08_tie_loops_hex_comparePreRelease := Verif.Tie.Loops.Hex.tie_loops_hex_comparePreRelease.
-Print Assumptions C08_tie_loops_hex_comparePreRelease.
-Definition C08_tie_comparePreRelease_total_model := Verif.Tie.Loops.Hex.comparePreRelease_total_model.
-Print Assumptions C08_tie_comparePreRelease_total_model.
-Definition C08_tie_hex_compare_closed := Verif.Tie.Loops.Hex.tie_hex_compare_closed.
-Print Assumptions C08_tie_hex_compare_closed.
-Definition C08_tie_loops_npm_comparePrerelease := Verif.Tie.Loops.Npm.tie_loops_npm_comparePrerelease.
-Print Assumptions C08_tie_loops_npm_comparePrerelease.
-Definition C08_tie_npm_compare_closed := Verif.Tie.Loops.Npm.tie_npm_compare_closed.
-Print Assumptions C08_tie_npm_compare_closed.
-Definition C08_tie_loops_nuget_comparePrerelease := Verif.Tie.Loops.Nuget.tie_loops_nuget_comparePrerelease.
-Print Assumptions C08_tie_loops_nuget_comparePrerelease.
-Definition C08_tie_nuget_compare_closed := Verif.Tie.Loops.Nuget.tie_nuget_compare_closed.
-Print Assumptions C08_tie_nuget_compare_closed.
-Definition C08_tie_loops_semver_comparePrerelease := Verif.Tie.Loops.Semver.tie_loops_semver_comparePrerelease.
-Print Assumptions C08_tie_loops_semver_comparePrerelease.
-Definition C08_tie_semver_compare_closed := Verif.Tie.Loops.Semver.tie_semver_compare_closed.
-Print Assumptions C08_tie_semver_compare_closed.
+Definition C08_tie_cargo_compareInt := @Verif.Tie.Cargo.tie_cargo_compareInt.
+Definition C08_tie_cargo_compare := @Verif.Tie.Cargo.tie_cargo_compare.
+Definition C08_tie_golang_compareInt := @Verif.Tie.Golang.tie_golang_compareInt.
+Definition C08_tie_golang_Version_Compare := @Verif.Tie.Golang.tie_golang_Version_Compare.
+Definition C08_tie_hex_compareInt := @Verif.Tie.Hex.tie_hex_compareInt.
+Definition C08_tie_hex_compare := @Verif.Tie.Hex.tie_hex_compare.
+Definition C08_tie_npm_compareInt := @Verif.Tie.Npm.tie_npm_compareInt.
+Definition C08_tie_npm_compare := @Verif.Tie.Npm.tie_npm_compare.
+Definition C08_tie_nuget_compareInt := @Verif.Tie.Nuget.tie_nuget_compareInt.
+Definition C08_tie_nuget_compare := @Verif.Tie.Nuget.tie_nuget_compare.
+Definition C08_tie_semver_compareInt := @Verif.Tie.Semver.tie_semver_compareInt.
+Definition C08_tie_semver_compare := @Verif.Tie.Semver.tie_semver_compare.
+Definition C08_tie_loops_cargo_comparePrereleaseIdentifiers := @Verif.Tie.Loops.Cargo.tie_loops_cargo_comparePrereleaseIdentifiers.
+Definition C08_tie_comparePrereleaseIdentifiers_total_model := @Verif.Tie.Loops.Cargo.comparePrereleaseIdentifiers_total_model.
+Definition C08_tie_cargo_compare_closed := @Verif.Tie.Loops.Cargo.tie_cargo_compare_closed.
+Definition C08_tie_loops_golang_comparePrerelease := @Verif.Tie.Loops.Golang.tie_loops_golang_comparePrerelease.
+Definition C08_tie_comparePrerelease_total_model := @Verif.Tie.Loops.Golang.comparePrerelease_total_model.
+Definition C08_tie_golang_compare_closed := @Verif.Tie.Loops.Golang.tie_golang_compare_closed.
+Definition C08_tie_loops_hex_comparePreRelease := @Verif.Tie.Loops.Hex.tie_loops_hex_comparePreRelease.
+Definition C08_tie_comparePreRelease_total_model := @Verif.Tie.Loops.Hex.comparePreRelease_total_model.
+Definition C08_tie_hex_compare_closed := @Verif.Tie.Loops.Hex.tie_hex_compare_closed.
+Definition C08_tie_loops_npm_comparePrerelease := @Verif.Tie.Loops.Npm.tie_loops_npm_comparePrerelease.
+Definition C08_tie_npm_compare_closed := @Verif.Tie.Loops.Npm.tie_npm_compare_closed.
+Definition C08_tie_loops_nuget_comparePrerelease := @Verif.Tie.Loops.Nuget.tie_loops_nuget_comparePrerelease.
+Definition C08_tie_nuget_compare_closed := @Verif.Tie.Loops.Nuget.tie_nuget_compare_closed.
+Definition C08_tie_loops_semver_comparePrerelease := @Verif.Tie.Loops.Semver.tie_loops_semver_comparePrerelease.
+Definition C08_tie_semver_compare_closed := @Verif.Tie.Loops.Semver.tie_semver_compare_closed.
+Definition C08_ties_all := (C08_tie_cargo_compare, (C08_tie_cargo_compareInt, (C08_tie_cargo_compare_closed, (C08_tie_comparePreRelease_total_model, (C08_tie_comparePrereleaseIdentifiers_total_model, (C08_tie_comparePrerelease_total_model, (C08_tie_golang_Version_Compare, (C08_tie_golang_compareInt, (C08_tie_golang_compare_closed, (C08_tie_hex_compare, (C08_tie_hex_compareInt, (C08_tie_hex_compare_closed, (C08_tie_loops_cargo_comparePrereleaseIdentifiers, (C08_tie_loops_golang_comparePrerelease, (C08_tie_loops_hex_comparePreRelease, (C08_tie_loops_npm_comparePrerelease, (C08_tie_loops_nuget_comparePrerelease, (C08_tie_loops_semver_comparePrerelease, (C08_tie_npm_compare, (C08_tie_npm_compareInt, (C08_tie_npm_compare_closed, (C08_tie_nuget_compare, (C08_tie_nuget_compareInt, (C08_tie_nuget_compare_closed, (C08_tie_semver_compare, (C08_tie_semver_compareInt, C08_tie_semver_compare_closed)))))))))))))))))))))))))).
+Print Assumptions C08_ties_all.
 (* ====== ties to the source: END ====== *)
